@@ -16,10 +16,6 @@ import (
 // Helpers shared by the evaluator-property observers (C19, C21, C22, C23). Everything here is
 // deterministic: maps are only iterated through sorted key lists, randomness comes from g.n().
 
-// nontrivialFor lets a property refine the generic "this run exercised the mechanism" rule of
-// Engine.Run (consulted there if present; the generic rule must hold too).
-var nontrivialFor = map[string]func(*Sim) bool{}
-
 // xbase fills the header of an observer-generated transaction: valid right now, unique note, no lease
 // (the base generator's random leases would make good-faith members fail for unrelated reasons).
 func (g *Gen) xbase(t *txntest.Txn) *txntest.Txn {
